@@ -249,5 +249,43 @@ fn c08_k_graham_hull_equidistant_collinear() {
     assert!(is_strict_hull_of(&h, &orig));
 }
 
+// ---- large integer coordinates (the statement: "large coordinates where the farthest-point selection is subject
+//      to rounding ... integer scalar types when the products fit"): i64 around 2^30, exact oracle in i128 --------
+#[cfg(kani)]
+fn is_strict_hull_of_i64(h: &LineString<i64>, pts: &[Coord<i64>]) -> bool {
+    let o = |a: Coord<i64>, b: Coord<i64>, c: Coord<i64>| -> i128 {
+        (b.x as i128 - a.x as i128) * (c.y as i128 - b.y as i128) - (b.y as i128 - a.y as i128) * (c.x as i128 - b.x as i128)
+    };
+    let n = h.0.len();
+    if n < 4 || h.0[0] != h.0[n - 1] { return false; }
+    let m = n - 1;
+    let mut ok = true;
+    let mut i = 0;
+    while i < m {
+        let (a, b, c) = (h.0[i], h.0[(i + 1) % m], h.0[(i + 2) % m]);
+        ok = ok && o(a, b, c) > 0;
+        let mut found = false;
+        let mut k = 0;
+        while k < pts.len() { if pts[k] == a { found = true; } ok = ok && o(a, b, pts[k]) >= 0; k += 1; }
+        ok = ok && found;
+        i += 1;
+    }
+    ok
+}
+/// three collinear points whose exact distances from the chord differ by 2 units at magnitude 2^59 (they tie
+/// in f64); the middle one is last in slice order
+#[cfg(kani)]
+fn big_points() -> Vec<Coord<i64>> {
+    let c = |x: i64, y: i64| Coord { x, y };
+    vec![c(0, 0), c(1073741824, 1), c(536870912, 536870912), c(536870916, 536870912), c(536870914, 536870912)]
+}
+#[cfg(kani)] #[kani::proof] #[kani::unwind(12)]
+fn c08_k_quick_hull_large_i64() {
+    let mut w = big_points();
+    let h = qhull::quick_hull(&mut w);
+    assert!(is_strict_hull_of_i64(&h, &big_points()));
+}
+// (graham_hull on the same input does not finish in CBMC within 400 s: not registered)
+
 #[cfg(kani)]
 include!(concat!(env!("GEO_VERIF_DIR"), "/.work/playback/pb_c08.rs"));
